@@ -237,6 +237,26 @@ CLAIMED = {
         technique='Lean 4 proof (tokenizer induction, padding invariance, comma splitter; kernel evaluation over complete value tables) + '
                   'executable printer/parser models run against the Go code + round-trip search on the real code',
         ref='8/C09'),
+    'C12': dict(
+        text='Ref.read (Lean) is a reader of the AppArmor 3 rule syntax written from apparmor.d(5), independent of the library parser. Lean '
+             'theorems: the text the printer model produces is accepted by that reader and the reader finds in it exactly the fields the '
+             'rule states, decided by kernel evaluation over the COMPLETE regenerated value tables (every capability name x qualifier x '
+             'comment, every network domain x type, every signal access x signal, every ptrace access, every exec transition on quoted '
+             'and nested-alternation paths, with owner and target); for EVERY permission string the access list the library builds holds '
+             'at most one exec transition (C12_one_exec_mode, via sort-is-a-permutation and compact-is-a-sublist); the known classes '
+             '(fused exec modes after a merge, unquoted blank) are proved on their witnesses. On every run: the printer model against '
+             'Rule.String/Rules.String; Ref.read against apparmor_parser (what the reader accepts, the parser accepts; fields read back); '
+             'and the search on the real code with the real parser as oracle: each printed rule, merged+formatted block, rule built from a '
+             'generated log record and output of a generated dbus directive must be accepted and compile (apparmor_parser -Q -K -S with '
+             'kernel features) to the byte-identical policy as the rule written from its fields by an independent printer.',
+        note='Partial: AppArmor 3 only (apparmor_parser 3.0.8; userns, mqueue, io_uring, all are outside); Ref.read covers capability, network, '
+             'signal, ptrace, file, link, change_profile, rlimit - mount, pivot_root, unix and dbus are judged by the real parser only; '
+             'Ref.read is tied to the parser by sampling (semantic rejections such as invalid family/type pairs, regex errors, undefined '
+             'variables are not modelled); equal meaning = byte-identical compiled policy of one-rule stub profiles; known findings: '
+             'unquoted blank in a path, fused exec modes, unix protocol=, link without target.',
+        technique='Lean 4 proof (reference-syntax reader; kernel evaluation over complete value tables; one-exec-mode theorem for all inputs) + '
+                  'reader tied to apparmor_parser + compiled-policy comparison of the real output with the reference parser',
+        ref='8/C12'),
 }
 
 REASON_TODO = 'check not built yet in this round; no claim is made (see DESIGN.md section 13)'
